@@ -78,8 +78,15 @@ Idx == {"0", "1", "2147483648", "9223372036854775807", "36893488147419103232"}  
 Addrs == {S(""), S("tcp://host-1:5555")}
 Texts == {S(""), S("x y"), NonAscii}
 
-Case(p, m, ok) == [proto |-> p, msg |-> m, msg2 |-> None, ok |-> ok]
-Case2(p, m, m2, ok) == [proto |-> p, msg |-> m, msg2 |-> m2, ok |-> ok]
+\* how: the way the harness must arrive at the message object before handing it to the encoder -
+\*   "ctor"     every field is passed to the constructor;
+\*   "inplace"  every pydantic model in the message is constructed WITHOUT its defaulted fields (JobInstance.serdes /
+\*              ext_outputs, TaskDefinition.entrypoint / func / needs_gpu) and these are then brought to their final value on
+\*              the live object: lists and dicts filled in place (append / item assignment), scalars assigned.
+\* The message handed to the encoder is the same value either way, so Post does not distinguish them.
+Case(p, m, ok) == [proto |-> p, msg |-> m, msg2 |-> None, ok |-> ok, how |-> "ctor"]
+Case2(p, m, m2, ok) == [proto |-> p, msg |-> m, msg2 |-> m2, ok |-> ok, how |-> "ctor"]
+InPlace(c) == [c EXCEPT !.how = "inplace"]
 
 \* ---------------------------------------------------------------- cascade.shm.api
 KeyReq(cls, k) == O(A \o cls, <<F("key", k)>>)
@@ -173,9 +180,10 @@ JobFileCases == {Case("jobfile", j, TRUE) : j \in Jobs}
 JobSpec(bn, env, ji, wph, hosts, slurm) == O(G \o "JobSpec", <<F("benchmark_name", bn), F("envvars", D(env)), F("job_instance", ji),
                                                F("workers_per_host", I(wph)), F("hosts", I(hosts)), F("use_slurm", Bool(slurm))>>)
 OptTexts == {None, S(""), S("boom"), NonAscii}
+JobSubmitReqs == {O(G \o "SubmitJobRequest", <<F("job", JobSpec(None, <<>>, j, "2147483648", "9223372036854775807", TRUE))>>) : j \in Jobs}
 SubmitReqs == {O(G \o "SubmitJobRequest", <<F("job", JobSpec(S("generators"), <<SP("GENERATORS_N", "8"), SP("EMPTY", "")>>, None, "1", "2", FALSE))>>),
                O(G \o "SubmitJobRequest", <<F("job", JobSpec(S(""), <<>>, None, "0", "0", TRUE))>>)}
-          \cup {O(G \o "SubmitJobRequest", <<F("job", JobSpec(None, <<>>, j, "2147483648", "9223372036854775807", TRUE))>>) : j \in Jobs}
+          \cup JobSubmitReqs
 SubmitResps == {O(G \o "SubmitJobResponse", <<F("job_id", j), F("error", e)>>) : j \in {None, S("job-1"), S("")}, e \in OptTexts}
 ProgressReqs == {O(G \o "JobProgressRequest", <<F("job_ids", L(ids))>>) : ids \in {<<>>, <<S("job-1"), S("")>>}}
 ProgressResps == {O(G \o "JobProgressResponse", <<F("progresses", D(p)), F("error", e)>>)
@@ -189,7 +197,10 @@ GatewayCases == {Case2("gateway", q, p, TRUE) : q \in SubmitReqs, p \in SubmitRe
            \cup {Case2("gateway", q, p, TRUE) : q \in ResultReqs, p \in ResultResps}
            \cup {Case2("gateway", q, p, TRUE) : q \in ShutdownReqs, p \in ShutdownResps}
 
-Cases == ShmCases \cup ExecCases \cup ReportCases \cup JobFileCases \cup GatewayCases
+\* every message that contains pydantic models with defaulted fields, once more built in place: the job file and the
+\* gateway requests that embed a job instance
+InPlaceCases == {InPlace(c) : c \in JobFileCases} \cup {InPlace(Case2("gateway", q, p, TRUE)) : q \in JobSubmitReqs, p \in SubmitResps}
+Cases == ShmCases \cup ExecCases \cup ReportCases \cup JobFileCases \cup GatewayCases \cup InPlaceCases
 
 \* ---------------------------------------------------------------- post-condition
 Unordered == {"set", "dict", "obj"}
